@@ -424,6 +424,11 @@ class CallMixin(ExprMixin):
         self.st.env = env
         if entry is not None:
             self.entry = entry
+        # inside old(...), the names of this clause/definition (its own parameters) shadow the enclosing function's entry values
+        saved_old = None
+        if self.old_stack:
+            saved_old = self.old_stack[-1]
+            self.old_stack[-1] = dict(saved_old, env=env)
         self.spec_mode += 1
         try:
             return self.eval(node)
@@ -431,6 +436,8 @@ class CallMixin(ExprMixin):
             self.spec_mode -= 1
             self.st.env = saved_env
             self.entry = saved_entry
+            if saved_old is not None:
+                self.old_stack[-1] = saved_old
 
     def spec_bool(self, expr: str, env, entry=None):
         return self.truth(self.spec_eval(expr, env, entry))
@@ -599,12 +606,18 @@ class CallMixin(ExprMixin):
             return memo[memo_key]
         saved = self.st.env
         self.st.env = {pname: base}
+        saved_old = None
+        if self.old_stack:
+            saved_old = self.old_stack[-1]
+            self.old_stack[-1] = dict(saved_old, env=self.st.env)
         self.spec_mode += 1
         try:
             r = self.eval(body[0].value)
         finally:
             self.spec_mode -= 1
             self.st.env = saved
+            if saved_old is not None:
+                self.old_stack[-1] = saved_old
         if not getattr(self, 'spec_locals', None):
             memo[memo_key] = r
         return r
@@ -765,10 +778,8 @@ class CallMixin(ExprMixin):
         keys, cnt, has, val, idx = self.dict_parts(out)
         kk = z3.Const(fresh_name('k'), kt.sort())
         self.assume(cnt == n)
-        self.assume(z3.ForAll([i], z3.Implies(z3.And(0 <= i, i < n), z3.And(z3.Select(keys, i) == keyat(i), z3.Select(has, keyat(i)),
+        self.assume(z3.ForAll([i], z3.Implies(z3.And(0 <= i, i < n), z3.And(z3.Select(keys, i) == keyat(i),
                                                                                   z3.Select(val, keyat(i)) == valat(i), z3.Select(idx, keyat(i)) == i)),
                                  patterns=[z3.Select(keys, i)]))
-        self.assume(z3.ForAll([kk], z3.Implies(z3.Select(has, kk), z3.And(0 <= z3.Select(idx, kk), z3.Select(idx, kk) < n, z3.Select(keys, z3.Select(idx, kk)) == kk)),
-                                 patterns=[z3.Select(has, kk)]))
         out.py = ('from_pairs', pairs)
         return out
